@@ -570,7 +570,7 @@ def files_rule(chk, done):
                 continue
             todo.append((rel, key))        # class-level tables and module-level objects of the anchored files
     if todo:
-        chk.rule("FILE", "every other function of the anchored files (display methods excepted), and every name bound in their "
+        chk.rule("FILE", "every other function of the anchored files (`__repr__` bodies excepted), and every name bound in their "
                          "class and module bodies, is proven equal to its reference version (E8)")
         for rel, key in todo:
             same_as_reference(chk, "FILE", rel, key, "a function of a file this property is anchored in" if "#" not in key
